@@ -77,8 +77,27 @@ def single_defs(f: Func) -> Dict[str, ast.expr]:
                 continue
             if any(isinstance(x, (ast.Yield, ast.YieldFrom, ast.Await, ast.Lambda, ast.NamedExpr)) for x in ast.walk(e)):
                 continue
+            if any(isinstance(x, ast.Call) and not _pure_call(x) for x in ast.walk(e)):
+                continue  # substituting a side-effecting call (queue.pop(0), rng.normal(..)) would change its meaning
             env[name] = e
     return env
+
+
+_PURE_FUNCS = {"len", "sum", "all", "any", "str", "list", "tuple", "isinstance", "max", "min", "int", "float", "bool", "sorted",
+               "enumerate", "range", "zip", "repr", "abs", "round", "set", "frozenset", "dict", "floor", "ceil", "sqrt", "log", "power",
+               "Path", "array", "iter", "defaultdict"}
+
+
+def _pure_call(c: ast.Call) -> bool:
+    from . import cfg as _cfg
+    n = norm.call_name(c)
+    if n in _cfg.PURE_METHODS or n in _PURE_FUNCS:
+        return True
+    if isinstance(c.func, ast.Attribute) and n in ("get", "keys", "values", "items", "copy", "strip", "split", "format", "join", "exists", "resolve"):
+        return True
+    if isinstance(c.func, ast.Name) and n[:1].isupper():
+        return True   # constructor of a value object
+    return False
 
 
 # -- K1: who writes a field ----------------------------------------------------------------------------
